@@ -3,11 +3,16 @@
 Writes /verif/seeded/REVERIFY.json. (The repo test suite part is not repeated here; it was run at adoption time, see meta.json.)"""
 import glob, json, os, subprocess, sys, time
 V = "/verif"
+NCHECKS = int(os.environ.get("REVERIFY_NCHECKS", "1"))  # how many of the listed detecting checks are re-run per change (the first = usually the property's own)
 out = {}
+if os.environ.get("REVERIFY_RESUME") and os.path.exists(V + "/seeded/REVERIFY.json"):
+    out = json.load(open(V + "/seeded/REVERIFY.json"))
 only = sys.argv[1:]
 for d in sorted(glob.glob(V + "/seeded/*/")):
     sid = os.path.basename(d.rstrip("/"))
     if only and sid not in only:
+        continue
+    if sid in out and out[sid].get("checks"):
         continue
     meta = json.load(open(d + "meta.json"))
     wt = "/tmp/mut/rv_%s" % sid
@@ -21,7 +26,7 @@ for d in sorted(glob.glob(V + "/seeded/*/")):
         rec["demo_fails_with_change"] = dm.returncode != 0
         rec["demo_passes_without"] = dc.returncode == 0
         rec["checks"] = {}
-        for pid in meta.get("detected_by", []):
+        for pid in meta.get("detected_by", [])[:NCHECKS]:
             t0 = time.time()
             c = subprocess.run(["/venv/bin/python", "-m", "mc.check", pid, "--tier", "quick"], capture_output=True, text=True, cwd=V,
                                env=dict(os.environ, NFLOWS_SRC=wt, VERIF_EVIDENCE_DIR="/tmp/mut/rv_evidence"))
